@@ -648,7 +648,7 @@ func (l *Lexer) shiftXML(rawTag Hash) []byte {
 				}
 				l.r.Move(1)
 			}
-			if h := ToHash(parse.ToLower(parse.Copy(l.r.Lexeme()[mark+2:]))); h == rawTag { // copy so that ToLower doesn't change the case of the underlying slice
+			if h := ToHash(parse.ToLower(parse.Copy(l.r.Lexeme()[mark+2:]))); h == rawTag && l.atEndOfTagName() { // copy so that ToLower doesn't change the case of the underlying slice
 				if depth--; depth <= 0 {
 					break
 				}
